@@ -319,6 +319,12 @@ package environment
 //@   modifies nothing
 //@   ensures response == nil || fresh(response)
 //@   ensures envs != nil ==> forall id uid.ID, d system.ID :: old((id in envs.m) && envs.m[id] != nil && envs.m[id].workflow != nil && detOf(envs.m[id], d)) ==> (d in response)
+// the union itself; the caller holds the manager's lock
+//@ func (envs *Manager) activeDetectors() (response system.IDMap)
+//@   property C04
+//@   modifies nothing
+//@   ensures response == nil || fresh(response)
+//@   ensures envs != nil ==> forall id uid.ID, d system.ID :: old((id in envs.m) && envs.m[id] != nil && envs.m[id].workflow != nil && detOf(envs.m[id], d)) ==> (d in response)
 //@   loop 1 invariant fresh(response)
 //@   loop 1 invariant forall id uid.ID, d system.ID :: #visited[id] && envs.m[id] != nil && envs.m[id].workflow != nil && detOf(envs.m[id], d) ==> (d in response)
 //@   loop 2 invariant fresh(response) && (envDetectors == nil || fresh(envDetectors)) && response != envDetectors
@@ -331,12 +337,23 @@ package environment
 //@   ensures response == nil || fresh(response)
 //@   ensures forall d system.ID :: (d in response) == detOf(env, d)
 
+// The check that counts is made in the SAME critical section of the manager's lock as the registration: the set queried at
+// the top of CreateEnvironment is a snapshot, and between it and the registration (workflow loading, cleanup) another
+// request needing the same detector can pass the same check - both would then be registered.
 //@ func (envs *Manager) CreateEnvironment(workflowPath string, userVars map[string]string, public bool, newId uid.ID, autoTransition bool) (resultEnvId uid.ID, resultErr error)
 //@   property C04 C06
 //@   ghostvar registered bool = false
-//@   on mapupdate environment.Manager.m : assert !registered && (forall d system.ID :: (d in neededDetectors) ==> !(d in alreadyActiveDetectors)) ; registered = true
+//@   ghostvar held bool = false
+//@   ghostvar cur system.IDMap = nil
+//@   ghostvar checkedHeld bool = false
+//@   on call (*sync.RWMutex).Lock when recvfield == "mu" : held = true ; checkedHeld = false
+//@   on call (*sync.RWMutex).Unlock when recvfield == "mu" : held = false ; checkedHeld = false
+//@   on aftercall (*Manager).activeDetectors : cur = result ; checkedHeld = held
+//@   on mapupdate environment.Manager.m : assert !registered && held && checkedHeld && (forall d system.ID :: (d in cur) ==> !(d in neededDetectors)) ; registered = true
 //@   loop 4 invariant forall d system.ID :: #visited[d] ==> !(d in alreadyActiveDetectors)
 //@   loop 4 invariant !registered
+//@   loop 5 invariant !registered && held && checkedHeld && (cur == nil || fresh(cur))
+//@   loop 5 invariant forall d system.ID :: #visited[d] ==> !(d in neededDetectors)
 
 // ---------------------------------------------------------------------------------------------------------
 // C14: the environment-wide values rank as the outermost ancestor of every role: the adapter the root role is attached
